@@ -2220,7 +2220,9 @@ def unravel_index(indices, shape, order="C"):
             )
         )
     else:
-        unraveled_indices = tuple(empty((0,), dtype=np.intp, chunks=1) for i in shape)
+        unraveled_indices = tuple(
+            empty(indices.shape, dtype=np.intp, chunks=indices.chunks) for i in shape
+        )
 
     return unraveled_indices
 
